@@ -6,7 +6,8 @@ Tie between lean/OdmlModel/Model/Query.lean (+ Model/Rdf.lean for the export) an
   * the combinations FuzzyFinder executes (order, omissions) == `subsets`
   * the rows of every combination on the exported graph == `queryRows (exportRdf docs)`,
     and == `directEval docs` wherever the theorem `query_sound_complete` applies
-  * `evalBGP` == rdflib `graph.query` on random small graphs (library contract of the evaluator)
+  * `evalBGP` / `filtered` == rdflib `graph.query` on random small graphs x patterns (incl. by-text object
+    positions) x FILTERs of the three kinds the queries use (library contract of the evaluator)
 Oracle: the property restated over the public API: an independent evaluation of every
 non-empty combination of the given pairs on the odML objects themselves.
 
@@ -150,7 +151,9 @@ def gen_sec(rng, name, subs):
         if p["definition"] is not None and rng.random() < 0.3:
             p[rng.choice(["reference", "value_origin"])] = p["definition"]
     out = {"name": name, "type": rng.choice(TYPES), "definition": pick(rng, TEXTS, 0.4),
-           "reference": pick(rng, TEXTS, 0.3), "repository": None, "props": props, "subs": subs}
+           "reference": pick(rng, TEXTS, 0.3),
+           # now and then a Section with a repository of its own (the URL of the Document's one, or another)
+           "repository": pick(rng, ["http://x.org/t.xml", "http://x.org/s.xml"], 0.12), "props": props, "subs": subs}
     if out["definition"] is not None and rng.random() < 0.3:
         out["reference"] = out["definition"]
     return out
@@ -337,16 +340,17 @@ class C20(fw.Check):
     obligations = ["C20." + t for t in [
         "query_vocabulary_matches_writer", "query_never_fails", "evalBGP_sound", "evalBGP_complete",
         "combinations_exact", "combinations_most_specific_first", "hitless_omitted",
-        "fuzzy_equals_match_on_pairs", "query_tables_ok", "query_sound_complete",
-        "typed_literal_never_matches_counterexample",
-        "value_query_never_matches_counterexample", "id_never_matches_counterexample",
-        "query_sound_complete_counterexample"]]
+        "filtered_exact", "filter_strEq_exact", "filter_member_exact", "filter_typedBy_exact", "id_pair_exact",
+        "fuzzy_equals_match_on_pairs", "query_tables_ok", "query_sound_complete", "value_pair_exact",
+        "typed_literal_query_matches", "value_query_matches", "id_query_matches",
+        "repository_query_matches"]]
     trusted_base = [
         "Lean 4.33.0 kernel; axioms propext, Classical.choice, Quot.sound only (audited per theorem)",
         "hand-written models lean/OdmlModel/Model/Query.lean and Model/Rdf.lean, tied to /repo by this run",
         "harness/extract_tables.py (format._rdf_map tables regenerated into Lean on every run)",
         "Driver/C20.lean, Driver/RdfCodec.lean JSON glue; harness/framework.py, harness/c20.py, harness/c10.py",
-        "rdflib SPARQL engine: basic graph pattern matching with RDF term equality (validated against evalBGP per run)",
+        "rdflib SPARQL engine: basic graph pattern matching with RDF term equality, FILTER with STR / STRSTARTS / EXISTS "
+        "(evalBGP and Flt.holds are validated against it per run)",
     ]
     assumptions = [
         "the regex front ends (QueryParser, QueryParserFuzzy) are not modelled; string form == dictionary form is checked per case",
@@ -393,24 +397,32 @@ class C20(fw.Check):
                         v = rng.choice(NAMES + TYPES + TEXTS + UNITS + ORIGINS + [""])      # "": no object carries it
                     pairs.append({"k": key, "a": a, "v": v, "vs": []})
         if risky:
-            r = rng.choice(["uncertainty", "date", "id", "value", "repository", "sections",
-                            "doc_sections", "properties", "sec_repository"])
+            r = rng.choice(["uncertainty", "uncertainty", "date", "date", "id", "id", "value", "value", "value", "value",
+                            "repository", "sections", "doc_sections", "properties", "sec_repository"])
+            # (since the repair of the three query shapes - eb38590, 573e2b8, 57076b7 - these pairs have hits:
+            # texts that are carried, texts that are not, texts that differ from a carried one in spelling only)
             if r == "uncertainty":
-                pairs.append({"k": "Prop", "a": "uncertainty", "v": "0.5", "vs": []})
+                pairs.append({"k": "Prop", "a": "uncertainty", "v": rng.choice(["0.5", "0.5", "0.50", "0.7"]), "vs": []})
             elif r == "date":
-                pairs.append({"k": "Doc", "a": "date", "v": "2020-01-02", "vs": []})
+                pairs.append({"k": "Doc", "a": "date", "v": rng.choice(["2020-01-02", "2020-01-02", "2020-01-03"]), "vs": []})
             elif r == "id":
-                pairs.append({"k": rng.choice(KEYS), "a": "id", "v": "@first", "vs": []})
+                pairs.append({"k": rng.choice(KEYS), "a": "id", "v": rng.choice(["@first", "@first", "nobody"]), "vs": []})
             elif r == "value":
-                pairs.append({"k": "Prop", "a": "value", "v": "", "vs": rng.choice([["20"], ["x"], ["20", "25"]])})
+                pairs.append({"k": "Prop", "a": "value", "v": "",
+                              "vs": rng.choice([["20"], ["x"], ["20", "25"], ["25", "20"], ["y z"], ["1.5"],
+                                                ["20", "x"], ["21"], ["x", "y z"], ["20", "21"], ["x", "y"],
+                                                # what the value node says about itself is no value
+                                                [c10.RDFNS + "Seq"]])})
             elif r == "repository":
-                pairs.append({"k": "Doc", "a": "repository", "v": "http://x.org/t.xml", "vs": []})
+                pairs.append({"k": "Doc", "a": "repository",
+                              "v": rng.choice(["http://x.org/t.xml", "http://x.org/t.xml", "http://x.org/s.xml"]), "vs": []})
             elif r == "doc_sections":
                 pairs.append({"k": "Doc", "a": "sections", "v": "a", "vs": []})
             elif r == "properties":
                 pairs.append({"k": "Sec", "a": "properties", "v": "a", "vs": []})
             elif r == "sec_repository":
-                pairs.append({"k": "Sec", "a": "repository", "v": "http://x.org/t.xml", "vs": []})
+                pairs.append({"k": "Sec", "a": "repository",
+                              "v": rng.choice(["http://x.org/t.xml", "http://x.org/s.xml"]), "vs": []})
             else:
                 pairs.append({"k": "Sec", "a": "sections", "v": "x", "vs": []})
         if len(pairs) > 4:
@@ -431,9 +443,12 @@ class C20(fw.Check):
                 attrs[key] = rng.sample(STR_ATTRS[key], rng.choice([1, 1, 2]))
         if not attrs:
             attrs["Sec"] = ["name"]
+        risky_term = None
         if risky:
             key = rng.choice(KEYS)
             attrs.setdefault(key, []).insert(0, rng.choice(self.OTHER_ATTRS[key]))
+            # a term such an attribute can carry
+            risky_term = {"date": "2020-01-02", "uncertainty": "0.5", "repository": "http://x.org/t.xml"}.get(attrs[key][0])
         # the finder runs one query per combination: keep the number of pairs small
         while sum(len(v) for v in attrs.values()) > limit:
             k = rng.choice(sorted(attrs))
@@ -443,6 +458,8 @@ class C20(fw.Check):
         present = [t[2] for t in values_in_docs(docs)]
         search = [rng.choice(present) if present and rng.random() < 0.7 else rng.choice(NAMES + TEXTS + [""])
                   for _ in range(rng.choice([1, 2]))]
+        if risky_term and rng.random() < 0.7:
+            search[-1] = risky_term
         # one term asked of two attributes of an object that carries it in both
         twins = twins_in_docs(docs)
         if twins and not risky and rng.random() < 0.5:
@@ -679,6 +696,14 @@ class C20(fw.Check):
                 opts["writer"] = gen_writer(rng, docs, force_custom=True)
             case = {"stream": "sets", "kind": kind, "docs": docs, "post": post, "opts": opts,
                     "how": rng.choice(["dict", "str"])}
+            value_pair = None
+            if kind == "dtypes" and rng.random() < 0.6:
+                # a value searched by its text, for the dtypes whose Python text is the text of the export
+                # (a boolean reads True / true, a datetime has a blank / a T, a tuple is a list: which of the
+                # two spellings a search has to use is not demanded - such values are not asked for)
+                texts = {"date": "2020-01-02", "time": "12:00:00", "text": "x\ny", "url": "http://a.b/c",
+                         "person": "D. N. Adams"}
+                value_pair = {"k": "Prop", "a": "value", "v": "", "vs": [texts[rng.choice(sorted(texts))]]}
             if edits:
                 case["edits"] = edits
             if i % 3 == 2:
@@ -699,6 +724,8 @@ class C20(fw.Check):
                 if wanted:
                     pairs = [{"k": k, "a": a, "v": v, "vs": []} for k, a, v in wanted[:2]] + \
                         [p for p in pairs if (p["k"], p["a"]) not in [(w[0], w[1]) for w in wanted[:2]]][:2]
+                if value_pair:
+                    pairs = [value_pair] + pairs[:2]
                 case["pairs"] = pairs
             cases.append(case)
         return cases
@@ -736,7 +763,7 @@ class C20(fw.Check):
                 cases.append({"stream": "fuzzy", "docs": docs, "attrs": attrs, "search": search,
                               "how": rng.choice(["dict", "str"]), "opts": gen_opts(rng, docs)})
             else:
-                pairs = self.gen_pairs(rng, docs, i % 8 == 1)
+                pairs = self.gen_pairs(rng, docs, i % 4 == 1)
                 rng.shuffle(pairs)
                 cases.append({"stream": "match", "docs": docs, "pairs": pairs,
                               "how": rng.choice(["dict", "str"]), "opts": gen_opts(rng, docs)})
@@ -747,19 +774,42 @@ class C20(fw.Check):
         terms = [["i", "ex:a"], ["i", "ex:b"], ["i", "ex:c"], ["l", "x", ""], ["l", "y", ""],
                  ["l", "1", c10.XSD + "integer"], ["l", "x", c10.XSD + "string"]]
         preds = [["i", "ex:p"], ["i", "ex:q"], ["i", c10.RDFNS + "type"]]
-        for _ in range(m):
+        # the shapes of the repaired queries (typed literals, values, id, repository): a helper variable
+        # compared by its text (["str", text]) in a pattern, FILTERs on the variables of the rows; graphs
+        # with membership predicates rdf:_n and with nodes typed by a node
+        members = [["i", c10.RDFNS + "_1"], ["i", c10.RDFNS + "_2"], ["i", c10.RDFNS + "_x"], ["i", c10.RDFNS + "li"]]
+        texts = ["x", "y", "1", "ex:a", "ex:c"]
+        for i in range(m):
+            rich = i % 2 == 1
             triples = []
             for _t in range(rng.randrange(1, 9)):
-                triples.append([rng.choice(terms[:3]), rng.choice(preds), rng.choice(terms)])
+                pool = preds + members if rich else preds
+                triples.append([rng.choice(terms[:3]), rng.choice(pool), rng.choice(terms)])
             pats = []
             for _p in range(rng.randrange(1, 4)):
                 s = rng.choice(["?d", "?s", "?p", rng.choice(terms[:3])])
                 p = rng.choice(preds + preds + ["?v"])
                 o = rng.choice(["?d", "?s", "?p", "?v", rng.choice(terms), rng.choice(terms)])
+                if rich and rng.random() < 0.35:
+                    o = ["str", rng.choice(texts)]
                 pats.append([s, p, o])
             if not any(isinstance(x, str) for pat in pats for x in pat):
                 pats[0][0] = "?d"         # SELECT * needs a variable
-            cases.append({"stream": "bgp", "triples": triples, "pats": pats})
+            case = {"stream": "bgp", "triples": triples, "pats": pats}
+            if rich:
+                used = sorted(set(x for pat in pats for x in pat if isinstance(x, str))) or ["?d"]
+                filters = []
+                for _f in range(rng.choice([0, 1, 1, 2])):
+                    # mostly on a variable of the patterns (as in the generated queries), now and then on
+                    # one that stays unbound
+                    var = rng.choice(used) if rng.random() < 0.85 else rng.choice(["?d", "?s", "?p", "?v"])
+                    kind = rng.choice(["strEq", "member", "typedBy"])
+                    if kind == "typedBy":
+                        filters.append([kind, var, rng.choice(preds[:2]), rng.choice(texts)])
+                    else:
+                        filters.append([kind, var, rng.choice(texts)])
+                case["filters"] = filters
+            cases.append(case)
         for _ in range(60 if tier == "quick" else 600):
             pairs = []
             for _p in range(rng.randrange(1, 6)):
@@ -796,12 +846,37 @@ class C20(fw.Check):
         for s, p, o in case["triples"]:
             g.add((self.rdf_term(s), self.rdf_term(p), self.rdf_term(o)))
 
+        helpers = []
+        lines = []
+
+        def fresh():
+            helpers.append("?t%d" % (len(helpers) + 1))
+            return helpers[-1]
+
         def txt(x):
             if isinstance(x, str):
                 return x
+            if x[0] == "str":
+                # a helper variable that occurs once, compared by its text (the shape of the typed
+                # literal queries)
+                var = fresh()
+                lines.append('FILTER (STR(%s) = "%s") .\n' % (var, x[1]))
+                return var
             return self.rdf_term(x).n3()
-        query = "SELECT * WHERE {\n%s}" % "".join("%s %s %s .\n" % (txt(s), txt(p), txt(o))
-                                                   for s, p, o in case["pats"])
+        for s, p, o in case["pats"]:
+            lines.append("%s %s %s .\n" % (txt(s), txt(p), txt(o)))
+        for f in case.get("filters") or []:
+            if f[0] == "strEq":            # the shape of an id pair
+                lines.append('FILTER (STR(%s) = "%s") .\n' % (f[1], f[2]))
+            elif f[0] == "member":         # the shape of a searched value
+                a, b = fresh(), fresh()
+                lines.append('FILTER EXISTS { %s %s %s . FILTER (STRSTARTS(STR(%s), "%s_") && STR(%s) = "%s") } .\n'
+                             % (f[1], a, b, a, c10.RDFNS, b, f[2]))
+            else:                          # the shape of a repository pair
+                a, b = fresh(), fresh()
+                lines.append('FILTER EXISTS { %s %s %s . %s <%stype> %s . FILTER (STR(%s) = "%s") } .\n'
+                             % (f[1], self.rdf_term(f[2]).n3(), a, a, c10.RDFNS, b, b, f[3]))
+        query = "SELECT * WHERE {\n%s}" % "".join(lines)
         rows = []
         for row in g.query(query):
             d = row.asdict()
@@ -1273,7 +1348,8 @@ class C20(fw.Check):
     def model_requests(self, case, obs):
         st = case["stream"]
         if st == "bgp":
-            return [{"op": "bgp", "triples": obs["triples"], "pats": case["pats"]}]
+            return [{"op": "bgp", "triples": obs["triples"], "pats": case["pats"],
+                     "filters": case.get("filters") or []}]
         if st == "subsets":
             return [] if "skipped" in obs else [{"op": "subsets", "pairs": case["pairs"]}]
         if st in ("sets", "creator"):
@@ -1467,25 +1543,11 @@ class C20(fw.Check):
         return out
 
     def finding_key(self, case, obs, failure):
-        # Only the three open findings (queries that would need another shape) are classified. The repaired
-        # ones (finder_keeps_first_graph, empty_graph_refused, parser_keeps_earlier_kinds,
-        # string_form_line_feed) have no branch: a regression is a VIOLATION.
-        st = case.get("stream")
-        if st in ("creator", "sets"):
-            return None          # codepoint_escape_in_value was repaired by 6c1fc7c: a regression is a VIOLATION
-        if st == "reuse":
-            return None
-        m = re.match(r"combination (.*): missing (\d+) rows, (\d+) rows that do not carry the values$", failure)
-        if m and m.group(3) == "0":
-            import json
-            keys = json.loads(m.group(1))
-            attrs = set((k[0], k[1]) for k in keys)
-            if ("Prop", "value") in attrs:
-                return "value_query_bag_vs_seq"
-            if ("Prop", "uncertainty") in attrs or ("Doc", "date") in attrs:
-                return "typed_literal_never_matches"
-            if any(a in ("id", "repository") for _k, a in attrs):
-                return "id_repository_never_match"
+        # No open finding. The repaired ones have no branch, so a regression is a VIOLATION:
+        # finder_keeps_first_graph, empty_graph_refused, parser_keeps_earlier_kinds, string_form_line_feed
+        # (work-fixC20), codepoint_escape_in_value (6c1fc7c), and the three queries that needed another
+        # shape: typed_literal_never_matches (eb38590), value_query_bag_vs_seq (573e2b8),
+        # id_repository_never_match (57076b7).
         return None
 
     @staticmethod
